@@ -241,12 +241,14 @@ def run(prog: Program, rep, tier="quick"):
                     for j, tn in g.nodes.items():
                         if tn.kind == "test" and isinstance(tn.ast, ast.Compare) and "delta_length" in norm(tn.ast) \
                                 and idx_names & {x.id for x in ast.walk(tn.ast) if isinstance(x, ast.Name)}:
+                            # canonical comparisons (sa/canon.py) only use < and <=
                             op = tn.ast.ops[0]
                             left_is_idx = idx_names & {x.id for x in ast.walk(tn.ast.left) if isinstance(x, ast.Name)}
-                            if isinstance(op, (ast.Lt,)) and left_is_idx:
+                            right_is_idx = idx_names & {x.id for x in ast.walk(tn.ast.comparators[0]) if isinstance(x, ast.Name)}
+                            if isinstance(op, ast.Lt) and left_is_idx and not right_is_idx:
                                 tests[j] = "true"       # index < delta_length: in-bounds side
-                            elif isinstance(op, (ast.GtE, ast.Gt)) and left_is_idx:
-                                tests[j] = "false"      # index (+ n) >= / > delta_length raises on true
+                            elif isinstance(op, (ast.Lt, ast.LtE)) and right_is_idx and not left_is_idx:
+                                tests[j] = "false"      # delta_length <= index / delta_length < index + n raises on true
                     r = reach(g, [g.entry], include_srcs=True, edge_ok=lambda a, b, l: not (a in tests and l == tests[a]))
                     ok = bool(tests) and i not in r
                     rep.ob("R03.1", PACK, f.qual, f"{norm(c, 40)} is dominated by a bound test on its index", ok,
@@ -258,8 +260,8 @@ def run(prog: Program, rep, tier="quick"):
     def tests_matching(pred):
         return [i for i, n in g.nodes.items() if n.kind == "test" and pred(norm(n.ast))]
     conds = {
-        "source size equals the base length": lambda s: "src_size != len(src_buf)" in s,
-        "all input consumed": lambda s: "index != delta_length" in s,
+        "source size equals the base length": lambda s: "src_size != len(src_buf)" in s or "len(src_buf) != src_size" in s,
+        "all input consumed": lambda s: "index != delta_length" in s or "delta_length != index" in s,
         "produced length equals declared length": lambda s: "dest_size != " in s or "!= dest_size" in s,
     }
     for what, pred in conds.items():
@@ -281,7 +283,7 @@ def run(prog: Program, rep, tier="quick"):
     cd = m.funcs.get("_create_delta_py")
     src = norm(cd.node, 100000)
     rep.ob("R03.5", PACK, cd.qual, "Python encoder splits copies with min(len, _MAX_COPY_LEN)", "min(copy_len, _MAX_COPY_LEN)" in src, "", cd.node.lineno)
-    rep.ob("R03.5", PACK, cd.qual, "Python encoder caps literal inserts at 127", "s > 127" in src and "bytes([127])" in src and "bytes([s])" in src, "", cd.node.lineno)
+    rep.ob("R03.5", PACK, cd.qual, "Python encoder caps literal inserts at 127", ("127 < s" in src or "s > 127" in src) and "bytes([127])" in src and "bytes([s])" in src, "", cd.node.lineno)
     ys = [y for y in ast.walk(cd.node) if isinstance(y, ast.Yield)]
     ys.sort(key=lambda y: y.lineno)
     rep.ob("R03.5", PACK, cd.qual, "Python encoder emits both size varints first",
